@@ -110,6 +110,7 @@ type ViolationOut struct {
 	Faults      map[string]int `json:"faults,omitempty"`
 	Steps       int            `json:"steps"`
 	ShrinkTests int            `json:"shrink_tests,omitempty"`
+	BySeed      bool           `json:"by_seed,omitempty"` // a crash: identified by (seed, run), there are no tapes
 }
 
 type Sample struct {
@@ -162,6 +163,7 @@ type Replay struct {
 	Log         []string       `json:"log"`
 	Minimised   bool           `json:"minimised"`
 	ShrinkTests int            `json:"shrink_tests"`
+	BySeed      bool           `json:"by_seed,omitempty"`
 }
 
 type KnownFinding struct {
@@ -349,7 +351,9 @@ func runWorker(b *build, req Request, gomaxprocs int, timeout time.Duration) (*R
 		raw, _ = json.Marshal(req)
 		os.WriteFile(reqPath, raw, 0o644)
 	}
-	cmd.Env = append(goEnv(), "SIM_REQ="+reqPath, "GOMAXPROCS="+strconv.Itoa(gomaxprocs), "GORACE=halt_on_error=0 exitcode=0 log_path="+raceLog)
+	progPath := filepath.Join(b.Dir, fmt.Sprintf("progress-%d", id))
+	defer os.Remove(progPath)
+	cmd.Env = append(goEnv(), "SIM_REQ="+reqPath, "SIM_PROGRESS="+progPath, "GOMAXPROCS="+strconv.Itoa(gomaxprocs), "GORACE=halt_on_error=0 exitcode=0 log_path="+raceLog)
 	var outBuf strings.Builder
 	cmd.Stdout, cmd.Stderr = &outBuf, &outBuf
 	if err := cmd.Start(); err != nil {
@@ -367,6 +371,21 @@ func runWorker(b *build, req Request, gomaxprocs int, timeout time.Duration) (*R
 	}
 	data, rerr := os.ReadFile(req.Out)
 	if rerr != nil {
+		// the process died. If netpoll's own code killed it (stack overflow, fatal error, a panic on
+		// a goroutine outside the simulator's recover) that is a verdict, not a harness failure.
+		if fn := crashedInNetpoll(outBuf.String()); fn != "" {
+			run := req.Start
+			if pd, err := os.ReadFile(progPath); err == nil {
+				if n, err := strconv.Atoi(strings.TrimSpace(string(pd))); err == nil {
+					run = n
+				}
+			}
+			fp := "crash/" + fn
+			resp := &Response{Scenario: req.Scenario, Outcomes: map[string]int{"crash": 1}, Faults: map[string]int{}, Probes: map[string]int{}, Policies: map[string]int{}}
+			resp.Violations = []ViolationOut{{Run: run, Property: "", Oracle: "no-crash", Fingerprint: fp, Class: fp, BySeed: true,
+				Message: "netpoll crashed the process:\n" + tail(outBuf.String(), 3000), Outcome: "crash", Summary: fmt.Sprintf("run %d of scenario %s", run, req.Scenario)}}
+			return resp, nil
+		}
 		return nil, fmt.Errorf("worker failed (%v) without a result (scenario %s start %d):\n%s", werr, req.Scenario, req.Start, tail(outBuf.String(), 6000))
 	}
 	var resp Response
@@ -377,6 +396,54 @@ func runWorker(b *build, req Request, gomaxprocs int, timeout time.Duration) (*R
 		resp.HarnessError = append(resp.HarnessError, fmt.Sprintf("worker exited with %v: %s", werr, tail(outBuf.String(), 2000)))
 	}
 	return &resp, nil
+}
+
+// crashedInNetpoll inspects the output of a dead worker: it returns the innermost netpoll function
+// of the crashing goroutine when the crash happened in netpoll's own code (not in the harness or
+// the simulator), "" otherwise.
+func crashedInNetpoll(out string) string {
+	i := strings.Index(out, "fatal error:")
+	if j := strings.Index(out, "panic:"); j >= 0 && (i < 0 || j < i) {
+		i = j
+	}
+	if i < 0 {
+		return ""
+	}
+	rest := out[i:]
+	g := strings.Index(rest, "\ngoroutine ")
+	if g < 0 {
+		return ""
+	}
+	lines := strings.Split(rest[g+1:], "\n")
+	for k := 1; k < len(lines) && k < 40; k++ {
+		l := strings.TrimSpace(lines[k])
+		if l == "" {
+			break
+		}
+		if strings.HasPrefix(l, "/") || strings.Contains(l, ".go:") {
+			continue
+		}
+		if strings.Contains(l, "zzsim_") || strings.Contains(l, "zzharness") || strings.Contains(l, "verif.local/simrt") {
+			// a frame of ours above netpoll's: look at its location line to be sure
+			if k+1 < len(lines) && (strings.Contains(lines[k+1], "zzsim_") || strings.Contains(lines[k+1], "zzharness") || strings.Contains(lines[k+1], "simrt@")) {
+				return ""
+			}
+		}
+		if strings.Contains(l, "github.com/cloudwego/netpoll") {
+			if k+1 < len(lines) && strings.Contains(lines[k+1], "zzsim_") {
+				return ""
+			}
+			fn := l
+			if p := strings.LastIndex(fn, "/"); p >= 0 {
+				fn = fn[p+1:]
+			}
+			if p := strings.LastIndex(fn, "("); p > 0 {
+				fn = fn[:p]
+			}
+			return fn
+		}
+	}
+	return ""
 }
 
 func tail(s string, n int) string {
@@ -589,6 +656,11 @@ func cmdRun(args []string) int {
 	scenOf := map[string]string{}
 	var fps []string
 	for _, v := range m.Violations {
+		if v.Property == "" { // a crash is a verdict of the property being checked
+			v.Property = plan.ID
+			v.Fingerprint = plan.ID + "/" + v.Fingerprint
+			v.Class = v.Fingerprint
+		}
 		if v.Class == "" {
 			v.Class = v.Fingerprint
 		}
@@ -661,6 +733,21 @@ func findKnown(known []KnownFinding, prop, fp string) *KnownFinding {
 func minimiseAndConfirm(b *build, scen string, seed uint64, v ViolationOut) (*Replay, error) {
 	var mv ViolationOut
 	resp := &Response{}
+	if v.BySeed {
+		// confirm the crash by running exactly that run again in a fresh process
+		c, err := runWorker(b, Request{Scenario: scen, Seed: seed, Start: v.Run, Stride: 1, Count: 1, Mode: "run"}, 2, 5*time.Minute)
+		if err != nil {
+			return nil, err
+		}
+		want := v.Fingerprint[strings.Index(v.Fingerprint, "/")+1:]
+		if len(c.Violations) == 0 || !c.Violations[0].BySeed || c.Violations[0].Fingerprint != want {
+			return nil, fmt.Errorf("the crash of run %d does not reproduce in a fresh process", v.Run)
+		}
+		return &Replay{Version: 1, Property: v.Property, Scenario: scen, Backend: "A", VerifSeed: seed, Run: v.Run, BySeed: true,
+			Build:     map[string]any{"race": strings.Contains(b.Dir, "race"), "fine_grain": strings.Contains(b.Dir, "fine")},
+			Violation: map[string]any{"oracle": v.Oracle, "fingerprint": v.Fingerprint, "class": v.Class, "message": v.Message, "outcome": "crash"},
+			Summary:   v.Summary}, nil
+	}
 	if strings.Contains(b.Dir, "race") {
 		// the race detector reports every pair of stacks once per process, so a report cannot be
 		// re-detected while shrinking in one process: the unminimised tapes are confirmed as they are
@@ -827,6 +914,18 @@ func cmdReplay(args []string) int {
 	b, err := buildSimTree(buildOpts{Race: race, Fine: fine})
 	if err != nil {
 		fatal2("%v", err)
+	}
+	if rp.BySeed {
+		c, err := runWorker(b, Request{Scenario: rp.Scenario, Seed: rp.VerifSeed, Start: rp.Run, Stride: 1, Count: 1, Mode: "run"}, 2, 5*time.Minute)
+		if err != nil {
+			fatal2("%v", err)
+		}
+		if len(c.Violations) > 0 && c.Violations[0].BySeed {
+			fmt.Printf("VIOLATION property=%s replay=%s\n  reproduced: the process crashes again (%s)\n", rp.Property, args[0], c.Violations[0].Fingerprint)
+			return 1
+		}
+		fmt.Printf("replay: run %d of %s no longer crashes on the current tree\n", rp.Run, rp.Scenario)
+		return 0
 	}
 	resp, err := runWorker(b, Request{Scenario: rp.Scenario, Mode: "replay", TapeS: rp.TapeS, TapeW: rp.TapeW, Trace: true}, 2, 5*time.Minute)
 	if err != nil {
